@@ -1,5 +1,6 @@
 import SSVerif.Model.Api
 import SSVerif.Proofs.Isolation
+import SSVerif.Proofs.TopN
 /-!
 # C08 — utterances and decoder instances are isolated; decoding is deterministic
 
@@ -142,7 +143,7 @@ theorem C08_tainted_carries :
       [Field.decoder_s__uttno, Field.decoder_s__perf, Field.decoder_s__n_frame,
        Field.fsg_search_s__perf, Field.fsg_search_s__n_tot_frame,
        Field.acmod_s__grow_feat, Field.acmod_s__n_mfc_alloc, Field.acmod_s__n_feat_alloc,
-       Field.ptm_fast_eval_s__topn, Field.s2_semi_mgau_s__topn_hist, Field.s2_semi_mgau_s__topn_hist_n,
+       Field.s2_semi_mgau_s__topn_hist, Field.s2_semi_mgau_s__topn_hist_n,
        Field.feat_s__bufpos, Field.feat_s__curpos] := by decide
 
 /-- no utterance operation writes a persistent component (configuration, models, dictionary, grammar,
@@ -294,6 +295,38 @@ theorem C08_instances_disjoint {I Val Inp : Type} [DecidableEq I] (K : Group →
     run decoderSys K sem (ms.phase i, view isGlobal ms i) (opsOf i l) =
       .ok (ms'.phase i, view isGlobal ms' i) :=
   runI_project decoderSys K sem isGlobal decoderSys_noGlobalWrite i l ms ms' h
+
+/-! ## the Gaussian-selection history of the PTM scorer -/
+
+/-- **topn_rescan_independent.**  `ptm_mgau_frame_eval` seeds every frame's top-N list with the previous
+frame's.  In the model of `eval_topn` + `eval_cb` (`SSVerif.Model.TopN`: the carried codewords re-scored
+for the current frame and sorted, then a scan of all `n` codewords of the codebook, each one replacing
+the worst entry when it is not yet present and does not score below it), the list after the scan does
+not depend on which `N` distinct codewords were carried in, provided the current frame's scores are
+pairwise different: two valid start lists give the same final list (same codewords, same scores, same
+order).  So a codebook that is scanned forgets every carried identity — which is why, on the pinned
+tree, the history of the previous utterance was invisible with `ds = 1` and leaked with frame
+down-sampling (`ds > 1`: odd frames skip the scan; D54, repaired by resetting the history when frame 0
+is scored, after which the cell is dead-on-start scratch in `decoderSys`).  Not covered: score ties, and
+the C code's comparison of a float score with the integer-truncated worst score, which can treat scores
+less than one unit apart as tied (probed on the implementation at the level of per-frame senone scores
+by the thorough tier). -/
+theorem C08_topn_rescan_independent (sc : Nat → Int) (n N : Nat)
+    (hinj : ∀ x y, x < n → y < n → sc x = sc y → x = y)
+    (a b : List TopN.Entry) (ga : TopN.Good sc n N 0 a) (gb : TopN.Good sc n N 0 b) :
+    TopN.scan sc n a = TopN.scan sc n b :=
+  TopN.good_unique sc n N hinj _ _
+    (TopN.scan_good sc n N a ga n (Nat.le_refl n)) (TopN.scan_good sc n N b gb n (Nat.le_refl n))
+
+section topnExamples
+/-- eight codewords with different scores, top-3 -/
+def exScore (c : Nat) : Int := [(-50 : Int), -7, -300, -12, -90, -3, -41, -8].getD c (-1000)
+/-- two start lists (worst first) carried from "different histories": codewords {2,4,0} and {6,3,1} -/
+def exStartA : List TopN.Entry := [(2, -300), (4, -90), (0, -50)]
+def exStartB : List TopN.Entry := [(6, -41), (3, -12), (1, -7)]
+example : TopN.scan exScore 8 exStartA = [(7, -8), (1, -7), (5, -3)] := by decide
+example : TopN.scan exScore 8 exStartB = [(7, -8), (1, -7), (5, -3)] := by decide
+end topnExamples
 
 /-! ## non-vacuity -/
 
